@@ -17,6 +17,8 @@ Variable p : prog.
 Hypothesis wfp : wf_prog p.
 Hypothesis nsf : no_self_feed p.
 Notation memob := (memob p).
+Notation dead := (dead p).
+Notation GoneSame := (GoneSame p).
 Notation effb := (effb p).
 Notation sigb := (sigb p).
 Notation Inv := (Inv p).
@@ -30,17 +32,25 @@ Notation queue_ok := (queue_ok p).
 Notation hasrun := (hasrun p).
 Notation IterPost := (IterPost p).
 
+Ltac gs :=
+  repeat match goal with |- GraphPullDefs.GoneSame _ _ ?x => unfold x end;
+  repeat (first [ apply GoneSame_refl
+                | apply updn_eff_GoneSame; solve [auto]
+                | apply GoneSame_getn; intros; rewrite ?getn_emit, ?getn_enqueue; reflexivity
+                | eapply GoneSame_trans; [|apply updn_eff_GoneSame; solve [auto]] ]).
+
 (* an update of effect-only fields of [e]: everybody else is unaffected *)
 Lemma Inv0_updn_eff e f s :
+  effb e = true ->
   Inv0 s -> (forall n, core_same n (f n)) ->
   Rest (updn e f s) e -> queue_ok (updn e f s) e -> Inv0 (updn e f s).
 Proof.
-  intros I Hf R Q. apply (InvBut_close p e (updn e f s)); auto.
+  intros He I Hf R Q. apply (InvBut_close p e (updn e f s)); auto.
   apply InvBut_updn; auto. apply Inv_InvBut; auto.
 Qed.
 
 Lemma Rest_eff_fields e k b h s s' :
-  decl_of p e = DEff k b h -> Rest s e ->
+  decl_of p e = DEff k b h -> Rest s e -> GoneSame s s' ->
   rlog (getn s' e) = rlog (getn s e) -> srcs (getn s' e) = srcs (getn s e) ->
   since (getn s' e) = since (getn s e) ->
   (forall x, cur s' x = cur s x) -> (forall x, st (getn s' x) = st (getn s x)) ->
@@ -49,12 +59,12 @@ Lemma Rest_eff_fields e k b h s s' :
   (will_run p s' e -> will_run p s e) ->
   Rest s' e.
 Proof.
-  intros Hd (R1&R2&R3&R4&R5) Hr Hs Hsi Hc Hst N1 N2 N3.
+  intros Hd (R1&R2&R3&R4&R5) Hgs Hr Hs Hsi Hc Hst N1 N2 N3.
   split; [unfold L1 in *; rewrite Hs, Hr; exact R1|].
   split; [unfold uncached_ok; rewrite Hd; exact Logic.I|].
   split; [|split].
-  - intros Hn. apply (Lcur_ext p s s' e Hr); [intros x v _; apply Hc|auto].
-  - intros Hn. apply (Lclean_ext p s s' e Hr); [|auto]. intros x v _ _ Hx. rewrite Hst; auto.
+  - intros Hn. apply (Lcur_ext p s s' e Hr Hgs); [intros x v _; apply Hc|auto].
+  - intros Hn. apply (Lclean_ext p s s' e Hr Hgs); [|auto]. intros x v _ _ Hx. rewrite Hst; auto.
   - intros Hn. rewrite Hsi. auto.
 Qed.
 
@@ -92,6 +102,7 @@ Proof.
       { unfold s1. apply Inv0_updn_eff; auto; fold s1.
         - intros n. unfold core_same; nsimpl; intuition.
         - apply (Rest_eff_fields e k b h s s1 Hde (conj R1 (conj R2 (conj R3 (conj R4 R5))))).
+          + gs.
           + rewrite E1; reflexivity.
           + rewrite E1; reflexivity.
           + rewrite E1; reflexivity.
@@ -108,7 +119,7 @@ Proof.
         assert (Hp1 : epoll (getn s1 e) = true) by (rewrite E1; exact Hp).
         assert (IP : IterPost s1 e).
         { unfold EffectsProofs.IterPost, EffectsProofs.hasrun in *. rewrite E1. nsimpl. split; auto.
-          intros H1 H2 H3 H4. apply (Lclean_ext p s s1 e); [rewrite E1; reflexivity| |auto].
+          intros H1 H2 H3 H4. apply (Lclean_ext p s s1 e); [rewrite E1; reflexivity|gs| |auto].
           intros x v _ _ Hx. rewrite Hs1; auto. }
         destruct (eff_iter_spec p wfp e k b h s1 nsf Hde I1 Ha1 Hp1 IP) as (I2 & IP2' & S2).
         set (s2 := eff_iter p (eff_check p) e (updn e (fun n => set_eflag n false) s1)) in *.
@@ -136,10 +147,10 @@ Proof.
            unfold GraphInvariant.Rest, L1, uncached_ok, GraphInvariant.needs_cur, GraphInvariant.needs_clean,
              GraphInvariant.will_run. rewrite Hde, E2. cbn [needs_cur_n needs_clean_n will_run_n hasrun_n]. nsimpl.
            split; [exact R1|]. split; [exact Logic.I|]. split; [|split].
-           ++ intros Hn. apply (Lcur_ext p s s2 e); [rewrite E2; reflexivity|intros x v _; apply Hc2|].
+           ++ intros Hn. apply (Lcur_ext p s s2 e); [rewrite E2; reflexivity|gs|intros x v _; apply Hc2|].
               apply R3. unfold GraphInvariant.needs_cur. rewrite Hde. exact Hn.
            ++ intros (_ & Hh & Hd0 & Hf0 & Hm0 & _).
-              apply (Lclean_ext p s s2 e); [rewrite E2; reflexivity| |].
+              apply (Lclean_ext p s s2 e); [rewrite E2; reflexivity|gs| |].
               ** intros x v _ _ Hx. rewrite Hs2; auto.
               ** apply IP2; auto. unfold EffectsProofs.hasrun. rewrite Hde. exact Hh.
            ++ intros Hw. apply R5. unfold GraphInvariant.will_run. rewrite Hde. exact Hw.
@@ -174,6 +185,7 @@ Proof.
   - rewrite Hn. apply I.
   - intros i Hi. apply (Rest_ext p s s' i).
     + rewrite Hg. apply nview_eq_refl.
+    + apply GoneSame_getn; auto.
     + intros x v _. apply cur_view; rewrite Hg; reflexivity.
     + intros x v _ _ Hc. rewrite Hg. exact Hc.
     + apply I; auto.
@@ -235,7 +247,7 @@ Proof.
       - eapply WF_getn_eq; [| |apply I]; auto.
       - exact (inv_err _ _ _ _ I).
       - exact (inv_nocause _ _ _ _ I).
-      - intros i Hi _. apply (Rest_ext p s sp i); [rewrite Hg; apply nview_eq_refl| | |apply I; auto].
+      - intros i Hi _. apply (Rest_ext p s sp i); [rewrite Hg; apply nview_eq_refl|apply GoneSame_getn; auto| | |apply I; auto].
         + intros x v _. apply cur_view; rewrite Hg; reflexivity.
         + intros x v _ _ Hc. rewrite Hg; auto.
       - intros _. unfold L1. rewrite Hg. exact R1.
@@ -245,6 +257,7 @@ Proof.
     { apply (InvBut_close p e s0).
       - apply InvBut_updn; auto. intros n. unfold core_same; nsimpl; intuition.
       - apply (Rest_eff_fields e k b h s s0 Hde (conj R1 (conj R2 (conj R3 (conj R4 R5))))).
+        + gs.
         + rewrite E0; reflexivity.
         + rewrite E0; reflexivity.
         + rewrite E0; reflexivity.
@@ -265,7 +278,7 @@ Proof.
     + rewrite E0. nsimpl. intros Ha. destruct (Qe Ha) as (Q1 & Q2). destruct (Q2 Hp0) as (_&_&_&Q5).
       unfold EffectsProofs.IterPost, EffectsProofs.hasrun. rewrite E0, Hde. nsimpl. split; auto.
       intros Hd0 Hf0 Hm0 Hh.
-      apply (Lclean_ext p s s0 e); [rewrite E0; reflexivity| |].
+      apply (Lclean_ext p s s0 e); [rewrite E0; reflexivity|gs| |].
       * intros x v _ _ Hx. rewrite Hs0; auto.
       * apply R4. unfold GraphInvariant.needs_clean. rewrite Hde. cbn [needs_clean_n]. auto 10.
 Qed.
@@ -356,10 +369,83 @@ Qed.
 Lemma pause_spec e b s : Inv0 s -> Inv0 (updn e (fun n => set_epaused n b) s).
 Proof.
   intros I. apply (Inv_views p [] 0 s); auto; try apply I.
-  - apply (WF_same_edges p s); [apply nlen_updn| |apply I].
-    intros i. rewrite (updn_field srcs), (updn_field subs); auto.
+  - apply (WF_same_edges p s); [apply nlen_updn| | |apply I].
+    + intros i. rewrite (updn_field srcs), (updn_field subs); auto.
+    + intros i. apply dead_view. apply (updn_field edone); auto.
   - intros i. destruct (getn_updn_cases e (fun n => set_epaused n b) s i) as [[_ E]|E]; rewrite E;
       [unfold nview_eq; nsimpl; intuition|apply nview_eq_refl].
+Qed.
+
+(* ---------------------------------------------------------------- a source is disposed *)
+(* nothing is marked, nobody runs: the node keeps its fields (a disposed memo is still marked by
+   its own sources, to no effect), its subscriber set is dropped, and what its subscribers
+   logged about it no longer binds them *)
+Lemma drop_spec n s :
+  Inv0 s -> effb n = false -> Inv0 (updn n (fun nd => set_subs (set_edone nd true) []) s).
+Proof.
+  intros I He.
+  destruct (Nat.lt_ge_cases n (nlen s)) as [Hn|Hn]; [|rewrite updn_oob; auto].
+  set (f := fun nd => set_subs (set_edone nd true) []).
+  set (s' := updn n f s).
+  assert (W : WF p s) by apply I.
+  assert (En : getn s' n = f (getn s n)) by (apply getn_updn_same; auto).
+  assert (Ho : forall k, k <> n -> getn s' k = getn s k) by (intros k Hk; apply getn_updn_other; auto).
+  assert (Hdn : dead s' n = true).
+  { unfold GraphInvariant.dead. rewrite He, En. reflexivity. }
+  assert (Hdo : forall k, k <> n -> dead s' k = dead s k) by (intros k Hk; apply dead_node; auto).
+  assert (Hmono : GoneMono p s s').
+  { intros k Hk. destruct (Nat.eq_dec k n) as [->|Hkn]; [congruence|]. rewrite <- Hdo; auto. }
+  assert (Hsr : forall k, srcs (getn s' k) = srcs (getn s k)).
+  { intros k. unfold s'. apply (updn_field srcs). reflexivity. }
+  assert (Hrl : forall k, rlog (getn s' k) = rlog (getn s k)).
+  { intros k. unfold s'. apply (updn_field rlog). reflexivity. }
+  assert (Hst : forall k, st (getn s' k) = st (getn s k)).
+  { intros k. unfold s'. apply (updn_field st). reflexivity. }
+  assert (Hca : forall k, cache (getn s' k) = cache (getn s k)).
+  { intros k. unfold s'. apply (updn_field cache). reflexivity. }
+  assert (Hcur : forall x, cur s' x = cur s x).
+  { intros x. apply cur_view; auto. unfold s'. apply (updn_field sval). reflexivity. }
+  assert (Hsu : forall k, subs (getn s' k) = if Nat.eqb k n then [] else subs (getn s k)).
+  { intros k. destruct (Nat.eqb_spec k n) as [->|Hk]; [rewrite En; reflexivity|rewrite Ho; auto]. }
+  split.
+  - split.
+    + unfold s'. rewrite nlen_updn. apply W.
+    + intros i j. rewrite Hsr. apply W.
+    + intros j. rewrite Hsu. destruct (Nat.eqb j n); [constructor|apply W].
+    + intros j k. rewrite Hsu, Hsr. destruct (Nat.eqb j n); [intros []|apply W].
+    + intros j k. rewrite Hsu, Hsr. intros Hj Hg. destruct (Nat.eqb_spec j n) as [->|Hjn]; [congruence|].
+      eapply wf_src_sub; eauto.
+    + intros i j. rewrite Hsr. apply W.
+    + intros j. rewrite Hsu. destruct (Nat.eqb_spec j n) as [->|Hjn]; auto.
+      rewrite Hdo by auto. apply W.
+  - apply I.
+  - apply I.
+  - intros i _. destruct (inv_rest _ _ _ _ I i (fun x => x)) as (R1 & R2 & R3 & R4 & R5).
+    assert (Hnv : needs_cur p s' i -> needs_cur p s i).
+    { unfold GraphInvariant.needs_cur, needs_cur_n, hasrun_n.
+      destruct (Nat.eq_dec i n) as [->|Hi]; [|rewrite Ho; auto].
+      rewrite Hca, Hst. unfold GraphInvariant.effb in He. destruct (decl_of p n); auto. discriminate. }
+    assert (Hnc : needs_clean p s' i -> needs_clean p s i).
+    { unfold GraphInvariant.needs_clean, needs_clean_n, hasrun_n.
+      destruct (Nat.eq_dec i n) as [->|Hi]; [|rewrite Ho; auto].
+      rewrite Hca, Hst. unfold GraphInvariant.effb in He. destruct (decl_of p n); auto. discriminate. }
+    assert (Hwr : will_run p s' i -> will_run p s i).
+    { unfold GraphInvariant.will_run, will_run_n, hasrun_n.
+      destruct (Nat.eq_dec i n) as [->|Hi]; [|rewrite Ho; auto].
+      rewrite Hca, Hst. unfold GraphInvariant.effb in He. destruct (decl_of p n); auto. discriminate. }
+    split; [unfold L1; rewrite Hsr, Hrl; exact R1|].
+    split.
+    { unfold uncached_ok in *. destruct (decl_of p i); auto. rewrite Hca, Hst, Hrl. exact R2. }
+    split; [|split].
+    + intros Hx. apply (Lcur_mono p s s' i (Hrl i) Hmono); [intros x v _; apply Hcur|auto].
+    + intros Hx. apply (Lclean_mono p s s' i (Hrl i) Hmono); [intros x v _ _ Hc; rewrite Hst; auto|auto].
+    + intros Hx. assert (Hsi : since (getn s' i) = since (getn s i)).
+      { unfold s'. apply (updn_field since). reflexivity. }
+      rewrite Hsi. auto.
+  - intros e. unfold GraphInvariant.queue_ok. unfold s' at 1. rewrite ready_updn.
+    destruct (Nat.eq_dec e n) as [->|Hen]; [|rewrite Ho; auto; apply I].
+    unfold queue_ok_n. unfold GraphInvariant.effb in He. destruct (decl_of p n); auto. discriminate.
+  - intros k [].
 Qed.
 
 (* ---------------------------------------------------------------- one operation *)
@@ -381,15 +467,20 @@ Proof.
   intros I Hw. unfold step. destruct (halted s); auto.
   assert (I1 : Inv0 (emit EvOp s)) by (apply Inv_emit; auto).
   set (s1 := emit EvOp s) in *.
-  destruct o as [j v|j|n|k| |e|e|e]; cbn [wf_op] in Hw.
-  - rewrite is_sig_sigb, Hw. apply Inv_notify; auto.
-  - rewrite is_sig_sigb, Hw.
+  destruct o as [j v|j|n|k| |e|e|e|n]; cbn [wf_op] in Hw.
+  - rewrite is_sig_sigb, Hw. destruct (sgone (getn s1 j)) eqn:Eg; auto.
+    apply Inv_notify; auto. rewrite dead_src; auto.
+    unfold GraphInvariant.effb, GraphInvariant.sigb in *. destruct (decl_of p j); congruence.
+  - rewrite is_sig_sigb, Hw. destruct (sgone (getn s1 j)) eqn:Eg; auto.
     rewrite <- (updn_id j (fun n => set_sval n (sval (getn s1 j))) s1) at 1.
-    + apply Inv_notify; auto.
+    + apply Inv_notify; auto. rewrite dead_src; auto.
+      unfold GraphInvariant.effb, GraphInvariant.sigb in *. destruct (decl_of p j); congruence.
     + destruct (getn s1 j); reflexivity.
   - destruct Hw as [Hn He]. rewrite is_eff_effb, He.
+    destruct (sgone (getn s1 n)) eqn:Eg; auto.
     destruct (read_top p n s1) as [s2 v] eqn:Er. cbn [fst].
-    destruct (Inv_read p wfp n s1 s2 v I1 Hn He Er) as (I2 & _). exact I2.
+    assert (Hgn : dead s1 n = false) by (rewrite dead_src; auto).
+    destruct (Inv_read p wfp n s1 s2 v I1 Hn He Hgn Er) as (I2 & _). exact I2.
   - destruct (ready s1) as [|a r] eqn:Er; [apply Inv_emit; auto|].
     rewrite <- Er.
     assert (Hlen : Nat.modulo k (length (ready s1)) < length (ready s1)).
@@ -400,6 +491,7 @@ Proof.
   - destruct (is_eff p e); auto. apply pause_spec; auto.
   - destruct (is_eff p e); auto. apply pause_spec; auto.
   - rewrite is_eff_effb. destruct (GraphInvariant.effb p e) eqn:He; auto. apply dispose_spec; auto.
+  - rewrite is_eff_effb. destruct (GraphInvariant.effb p n) eqn:He; auto. apply drop_spec; auto.
 Qed.
 
 (* ---------------------------------------------------------------- creation *)
@@ -428,6 +520,7 @@ Proof.
     + intros j k. rewrite getn_init0. destruct (H j) as (_&->&_). intros [].
     + intros j k. rewrite getn_init0. destruct (H k) as (->&_). intros [].
     + intros i j. rewrite getn_init0. destruct (H i) as (->&_). intros [].
+    + intros j _. rewrite getn_init0. destruct (H j) as (_&->&_). reflexivity.
   - reflexivity.
   - reflexivity.
   - intros i _. destruct (H i) as (Hs&_&Hr&Hc&Hst&Hd&_).
@@ -459,6 +552,7 @@ Lemma spawn_spec i k b h f s0 :
   Inv0 (enqueue i (updn i f s0)).
 Proof.
   intros Hde IB Hi0 Hf Hq1 Hq2 N1 N2 N3.
+  assert (He : effb i = true) by (unfold GraphInvariant.effb; rewrite Hde; auto).
   set (s1 := updn i f s0) in *.
   assert (E1 : getn s1 i = f (getn s0 i)) by (apply getn_updn_same; auto).
   assert (IB1 : InvBut i [] 0 s1) by (apply InvBut_updn; auto).
@@ -471,6 +565,7 @@ Proof.
     - unfold enqueue. destruct (existsb _ _); apply IB1.
     - intros x Hx Hxi. apply (Rest_ext p s1 (enqueue i s1) x).
       + rewrite Hgq. apply nview_eq_refl.
+      + apply GoneSame_getn; auto.
       + intros y v _. apply Hcq.
       + intros y v _ _ Hc. rewrite Hgq; auto.
       + apply (ib_rest _ _ _ _ _ IB1 x Hx Hxi).
@@ -485,9 +580,9 @@ Proof.
   - split; [unfold L1; rewrite Hgq; apply (ib_l1 _ _ _ _ _ IB1); intros []|].
     split; [unfold uncached_ok; rewrite Hde; exact Logic.I|].
     split; [|split].
-    + intros Hn. apply (Lcur_ext p s1 (enqueue i s1) i); [rewrite Hgq; reflexivity|intros y v _; apply Hcq|].
+    + intros Hn. apply (Lcur_ext p s1 (enqueue i s1) i); [rewrite Hgq; reflexivity|gs|intros y v _; apply Hcq|].
       apply N1. unfold GraphInvariant.needs_cur in *. rewrite Hgq in Hn. exact Hn.
-    + intros Hn. apply (Lclean_ext p s1 (enqueue i s1) i); [rewrite Hgq; reflexivity| |].
+    + intros Hn. apply (Lclean_ext p s1 (enqueue i s1) i); [rewrite Hgq; reflexivity|gs| |].
       * intros y v _ _ Hy. rewrite Hgq; auto.
       * apply N2. unfold GraphInvariant.needs_clean in *. rewrite Hgq in Hn. exact Hn.
     + intros Hn. exfalso. apply N3. unfold GraphInvariant.will_run in *. rewrite Hgq in Hn. exact Hn.
@@ -522,7 +617,7 @@ Proof.
   set (sa := updn i f0 s).
   assert (Ea : getn sa i = f0 (getn s i)) by (apply getn_updn_same; auto).
   assert (IBa : InvBut i [] 0 sa).
-  { apply InvBut_updn; [apply Inv_InvBut; auto|]. intros n. unfold core_same, f0; nsimpl; intuition. }
+  { apply InvBut_updn; [auto|apply Inv_InvBut; auto|]. intros n. unfold core_same, f0; nsimpl; intuition. }
   assert (Qa : queue_ok sa i).
   { unfold GraphInvariant.queue_ok, queue_ok_n. rewrite Hde, Ea. unfold f0. nsimpl. intros _. split; discriminate. }
   destruct (nsf_body_ok p wfp i ERender b h nsf Hde) as (Hokb & _).
@@ -541,8 +636,8 @@ Proof.
   - intros n. unfold f3. nsimpl. auto.
   - intros _. unfold f3. nsimpl. change (getn s3 i) with (getn s2 i). rewrite Hd2.
     split; [discriminate|]. cbn. discriminate.
-  - intros _. apply (Lcur_ext p s2 (updn i f3 s3) i); [rewrite E3; reflexivity|intros y w _; apply Hc3|exact Hc2].
-  - intros _. apply (Lclean_ext p s2 (updn i f3 s3) i); [rewrite E3; reflexivity| |exact Hcl2].
+  - intros _. apply (Lcur_ext p s2 (updn i f3 s3) i); [rewrite E3; reflexivity|gs|intros y w _; apply Hc3|exact Hc2].
+  - intros _. apply (Lclean_ext p s2 (updn i f3 s3) i); [rewrite E3; reflexivity|gs| |exact Hcl2].
     intros y w _ _ Hy. rewrite (updn_field st); auto.
   - unfold GraphInvariant.will_run, will_run_n. rewrite Hde, E3. unfold f3. nsimpl.
     intros (_&_&Hx). congruence.
@@ -581,10 +676,12 @@ Proof.
   assert (H2 := fun k => add_cause_getn j s1 k). cbv zeta in H2. fold s2 in H2.
   assert (H2m := add_cause_misc j s1). fold s2 in H2m.
   assert (W2 : WF p s2).
-  { apply (WF_same_edges p s s2); [| |apply I].
+  { apply (WF_same_edges p s s2); [| | |apply I].
     - destruct H2m as (->&_). unfold s1. apply nlen_updn.
     - intros k. destruct (H2 k) as (_&->&_&_&->&_). unfold s1.
-      rewrite (updn_field srcs), (updn_field subs); auto. }
+      rewrite (updn_field srcs), (updn_field subs); auto.
+    - intros k. apply dead_view. destruct (H2 k) as (_&_&_&_&_&_&_&_&_&_&_&_&->&_). unfold s1.
+      apply (updn_field edone); auto. }
   assert (HML := mark_dirty_list p (fun _ => false) (subs (getn s2 j)) (fun _ _ => False) s2 s2 W2 (MarkRel_refl p s2)).
   cbv beta iota zeta in HML. destruct HML as (MR & _ & _).
   { intros y k HE; contradiction. }
@@ -601,15 +698,18 @@ Proof.
   assert (I1 : Inv0 (emit EvOp s)) by (apply Inv_emit; auto).
   set (s1 := emit EvOp s) in *.
   assert (Hs1 : halted s1 = halted s /\ forall x, epoll (getn s1 x) = epoll (getn s x)) by (split; reflexivity).
-  destruct o as [j v|j|n|k| |e|e|e]; cbn [wf_op] in Hw.
-  - rewrite is_sig_sigb, Hw. destruct (notify_static j v s1 I1) as (A & B). right. auto.
-  - rewrite is_sig_sigb, Hw.
+  destruct o as [j v|j|n|k| |e|e|e|n]; cbn [wf_op] in Hw.
+  - rewrite is_sig_sigb, Hw. destruct (sgone (getn s1 j)); [right; auto|].
+    destruct (notify_static j v s1 I1) as (A & B). right. auto.
+  - rewrite is_sig_sigb, Hw. destruct (sgone (getn s1 j)); [right; auto|].
     rewrite <- (updn_id j (fun n => set_sval n (sval (getn s1 j))) s1) at 1.
     + destruct (notify_static j (sval (getn s1 j)) s1 I1) as (A & B). right. auto.
     + destruct (getn s1 j); reflexivity.
   - destruct Hw as [Hn He]. rewrite is_eff_effb, He.
+    destruct (sgone (getn s1 n)) eqn:Eg; [right; auto|].
     destruct (read_top p n s1) as [s2 v] eqn:Er. cbn [fst].
-    destruct (Inv_read p wfp n s1 s2 v I1 Hn He Er) as (_ & P & _). right. split.
+    assert (Hgn : dead s1 n = false) by (rewrite dead_src; auto).
+    destruct (Inv_read p wfp n s1 s2 v I1 Hn He Hgn Er) as (_ & P & _). right. split.
     + rewrite (pr_halted _ _ _ _ _ _ P). reflexivity.
     + intros x. destruct (pr_eff _ _ _ _ _ _ P x) as (_&_&_&_&_&->). reflexivity.
   - destruct (ready s1) as [|a r] eqn:Er; [right; split; [reflexivity|intros; reflexivity]|].
@@ -631,6 +731,8 @@ Proof.
     destruct (ereg _).
     + split; [rewrite Hq; reflexivity|]. intros x. rewrite getn_enqueue, !(updn_field epoll) by auto. reflexivity.
     + split; [reflexivity|]. intros x. rewrite (updn_field epoll) by auto. reflexivity.
+  - destruct (is_eff p n); [right; auto|]. right. split; [reflexivity|].
+    intros x. rewrite (updn_field epoll) by auto. reflexivity.
 Qed.
 
 Lemma create_epoll i s :
@@ -657,7 +759,7 @@ Proof.
   set (sa := updn i f0 s).
   assert (Ea : getn sa i = f0 (getn s i)) by (apply getn_updn_same; auto).
   assert (IBa : InvBut i [] 0 sa).
-  { apply InvBut_updn; [apply Inv_InvBut; auto|]. intros n. unfold core_same, f0; nsimpl; intuition. }
+  { apply InvBut_updn; [auto|apply Inv_InvBut; auto|]. intros n. unfold core_same, f0; nsimpl; intuition. }
   assert (Qa : queue_ok sa i).
   { unfold GraphInvariant.queue_ok, queue_ok_n. rewrite Hde, Ea. unfold f0. nsimpl. intros _. split; discriminate. }
   destruct (nsf_body_ok p wfp i ERender b h nsf Hde) as (Hokb & _).
@@ -721,15 +823,15 @@ Qed.
 (* ---------------------------------------------------------------- consequences *)
 (* C01: a read from outside, in any reachable state *)
 Theorem read_consistent_cone : forall ops n s' v,
-  wf_ops ops -> n < length p -> effb n = false ->
+  wf_ops ops -> n < length p -> effb n = false -> dead (run_fixed p ops) n = false ->
   read_top p n (run_fixed p ops) = (s', v) ->
   Inv0 s' /\
   (forall i, sval (getn s' i) = sval (getn (run_fixed p ops) i)) /\
   (memob n = true -> st (getn s' n) = Clean /\ cache (getn s' n) = Some v /\ ConsistentM p s' n) /\
   (sigb n = true -> v = sval (getn s' n)).
 Proof.
-  intros ops n s' v Hw Hn He Hr.
-  destruct (Inv_read p wfp n _ s' v (reachable_inv ops Hw) Hn He Hr) as (I' & P' & Hm & Hs).
+  intros ops n s' v Hw Hn He Hg Hr.
+  destruct (Inv_read p wfp n _ s' v (reachable_inv ops Hw) Hn He Hg Hr) as (I' & P' & Hm & Hs).
   split; auto. split; [apply (pr_sval _ _ _ _ _ _ P')|]. split; auto.
   intros Hmn. destruct (Hm Hmn) as [Hc Hca]. split; auto. split; auto.
   apply clean_consistent; auto.
@@ -737,14 +839,15 @@ Qed.
 
 (* reading again changes nothing *)
 Theorem read_idempotent : forall ops n s1 v1 s2 v2,
-  wf_ops ops -> n < length p -> memob n = true ->
+  wf_ops ops -> n < length p -> memob n = true -> dead (run_fixed p ops) n = false ->
   read_top p n (run_fixed p ops) = (s1, v1) -> read_top p n s1 = (s2, v2) -> v2 = v1.
 Proof.
-  intros ops n s1 v1 s2 v2 Hw Hn Hm H1 H2.
+  intros ops n s1 v1 s2 v2 Hw Hn Hm Hg H1 H2.
   assert (He : effb n = false).
   { unfold GraphInvariant.effb, GraphInvariant.memob in *. destruct (decl_of p n); congruence. }
-  destruct (Inv_read p wfp n _ s1 v1 (reachable_inv ops Hw) Hn He H1) as (I1 & _ & Hm1 & _).
-  destruct (Inv_read p wfp n s1 s2 v2 I1 Hn He H2) as (I2 & P2 & Hm2 & _).
+  destruct (Inv_read p wfp n _ s1 v1 (reachable_inv ops Hw) Hn He Hg H1) as (I1 & P1 & Hm1 & _).
+  assert (Hg1 : dead s1 n = false) by (rewrite (PullRel_GoneSame p _ _ _ _ _ P1 n); exact Hg).
+  destruct (Inv_read p wfp n s1 s2 v2 I1 Hn He Hg1 H2) as (I2 & P2 & Hm2 & _).
   destruct (Hm1 Hm) as [Hc1 Hca1]. destruct (Hm2 Hm) as [_ Hca2].
   destruct (pr_stable _ _ _ _ _ _ P2 n Hm (fun x => x) Hc1) as (_ & Hca & _). congruence.
 Qed.
